@@ -377,4 +377,232 @@ theorem onValue_invert (md : MD) (k : Str) (f : Str → Bool) :
 theorem onValue_absent (md : MD) (k : Str) (f : Str → Bool) (h : lookupMD md k = none) : onValue md k f = false := by
   unfold onValue valueFromMD; simp [h]
 
+/-! ### regular expressions: the derivative matcher decides full-string membership -/
+
+/-- The language of a regular expression (what `regexp` means by a FULL match of the string). `none` and `invalid`
+    have no words. -/
+inductive Lang : Re → Str → Prop
+  | eps : Lang .eps []
+  | char (c : Nat) : Lang (.char c) [c]
+  | dot (c : Nat) : c ≠ 10 → Lang .dot [c]
+  | range (lo hi c : Nat) : lo ≤ c → c ≤ hi → Lang (.range lo hi) [c]
+  | seq {a b : Re} {s t : Str} : Lang a s → Lang b t → Lang (.seq a b) (s ++ t)
+  | altL {a b : Re} {s : Str} : Lang a s → Lang (.alt a b) s
+  | altR {a b : Re} {s : Str} : Lang b s → Lang (.alt a b) s
+  | starNil {a : Re} : Lang (.star a) []
+  | starCons {a : Re} {s t : Str} : Lang a s → Lang (.star a) t → Lang (.star a) (s ++ t)
+
+theorem lang_none (s : Str) : ¬ Lang .none s := by intro h; cases h
+theorem lang_invalid (s : Str) : ¬ Lang .invalid s := by intro h; cases h
+
+theorem lang_eps_iff (s : Str) : Lang .eps s ↔ s = [] := by
+  constructor
+  · intro h; cases h; rfl
+  · rintro rfl; exact .eps
+
+theorem lang_seq_iff (a b : Re) (w : Str) : Lang (.seq a b) w ↔ ∃ s t, w = s ++ t ∧ Lang a s ∧ Lang b t := by
+  constructor
+  · intro h; cases h with | seq h1 h2 => exact ⟨_, _, rfl, h1, h2⟩
+  · rintro ⟨s, t, rfl, h1, h2⟩; exact .seq h1 h2
+
+theorem lang_alt_iff (a b : Re) (w : Str) : Lang (.alt a b) w ↔ Lang a w ∨ Lang b w := by
+  constructor
+  · intro h; cases h with
+    | altL h => exact Or.inl h
+    | altR h => exact Or.inr h
+  · rintro (h | h)
+    · exact .altL h
+    · exact .altR h
+
+theorem lang_mkSeq (a b : Re) (w : Str) : Lang (mkSeq a b) w ↔ Lang (.seq a b) w := by
+  unfold mkSeq
+  split
+  · -- a = none
+    constructor
+    · intro h; exact absurd h (lang_none _)
+    · intro h; rw [lang_seq_iff] at h; obtain ⟨_, _, _, h1, _⟩ := h; exact absurd h1 (lang_none _)
+  · constructor
+    · intro h; exact absurd h (lang_none _)
+    · intro h; rw [lang_seq_iff] at h; obtain ⟨_, _, _, _, h2⟩ := h; exact absurd h2 (lang_none _)
+  · -- a = eps
+    rw [lang_seq_iff]
+    constructor
+    · intro h; exact ⟨[], w, rfl, .eps, h⟩
+    · rintro ⟨s, t, rfl, h1, h2⟩
+      rw [lang_eps_iff] at h1; subst h1; simpa using h2
+  · rfl
+
+theorem lang_mkAlt (a b : Re) (w : Str) : Lang (mkAlt a b) w ↔ Lang (.alt a b) w := by
+  unfold mkAlt
+  split
+  · rw [lang_alt_iff]
+    constructor
+    · intro h; exact Or.inr h
+    · rintro (h | h)
+      · exact absurd h (lang_none _)
+      · exact h
+  · rw [lang_alt_iff]
+    constructor
+    · intro h; exact Or.inl h
+    · rintro (h | h)
+      · exact h
+      · exact absurd h (lang_none _)
+  · rfl
+
+theorem nullable_iff : ∀ r : Re, r.nullable = true ↔ Lang r []
+  | .none => by simp [Re.nullable, lang_none]
+  | .invalid => by simp [Re.nullable, lang_invalid]
+  | .eps => by simp [Re.nullable, lang_eps_iff]
+  | .char c => by
+    simp only [Re.nullable, Bool.false_eq_true, false_iff]; intro h; cases h
+  | .dot => by
+    simp only [Re.nullable, Bool.false_eq_true, false_iff]; intro h; cases h
+  | .range lo hi => by
+    simp only [Re.nullable, Bool.false_eq_true, false_iff]; intro h; cases h
+  | .seq a b => by
+    have iha := nullable_iff a
+    have ihb := nullable_iff b
+    simp only [Re.nullable, Bool.and_eq_true, iha, ihb, lang_seq_iff]
+    constructor
+    · rintro ⟨h1, h2⟩; exact ⟨[], [], rfl, h1, h2⟩
+    · rintro ⟨s, t, h, h1, h2⟩
+      have hs : s = [] := by cases s <;> simp at h ⊢
+      have ht : t = [] := by cases t <;> simp [hs] at h ⊢
+      subst hs ht; exact ⟨h1, h2⟩
+  | .alt a b => by
+    have iha := nullable_iff a
+    have ihb := nullable_iff b
+    simp only [Re.nullable, Bool.or_eq_true, iha, ihb, lang_alt_iff]
+  | .star a => by
+    simp only [Re.nullable, true_iff]; exact .starNil
+
+/-- a non-empty word of `a*` starts with a non-empty word of `a`. -/
+theorem star_cons_inv {a : Re} {c : Nat} {s : Str} (h : Lang (.star a) (c :: s)) :
+    ∃ s1 s2, s = s1 ++ s2 ∧ Lang a (c :: s1) ∧ Lang (.star a) s2 := by
+  generalize hr : Re.star a = r at h
+  generalize hw : c :: s = w at h
+  induction h generalizing s with
+  | eps => cases hr
+  | char => cases hr
+  | dot => cases hr
+  | range => cases hr
+  | seq => cases hr
+  | altL => cases hr
+  | altR => cases hr
+  | starNil => cases hw
+  | @starCons a' s' t hs ht _ iht =>
+    cases hr
+    cases s' with
+    | nil =>
+      simp only [List.nil_append] at hw
+      exact iht rfl hw
+    | cons x s1 =>
+      simp only [List.cons_append, List.cons.injEq] at hw
+      obtain ⟨rfl, rfl⟩ := hw
+      exact ⟨s1, t, rfl, hs, ht⟩
+
+theorem deriv_iff (c : Nat) : ∀ (r : Re) (s : Str), Lang (r.deriv c) s ↔ Lang r (c :: s)
+  | .none, s => by simp [Re.deriv, lang_none]
+  | .invalid, s => by simp [Re.deriv, lang_none, lang_invalid]
+  | .eps, s => by
+    simp only [Re.deriv, lang_none, false_iff]; intro h; cases h
+  | .char d, s => by
+    simp only [Re.deriv]
+    split
+    · rename_i h; subst h
+      rw [lang_eps_iff]
+      constructor
+      · rintro rfl; exact .char c
+      · intro h; cases h; rfl
+    · rename_i h
+      simp only [lang_none, false_iff]
+      intro h'; cases h'; exact h rfl
+  | .dot, s => by
+    simp only [Re.deriv]
+    split
+    · rename_i h; subst h
+      simp only [lang_none, false_iff]
+      intro h'; cases h' with | dot _ hne => exact hne rfl
+    · rename_i h
+      rw [lang_eps_iff]
+      constructor
+      · rintro rfl; exact .dot c h
+      · intro h'; cases h'; rfl
+  | .range lo hi, s => by
+    simp only [Re.deriv]
+    split
+    · rename_i h
+      rw [lang_eps_iff]
+      constructor
+      · rintro rfl; exact .range lo hi c h.1 h.2
+      · intro h'; cases h'; rfl
+    · rename_i h
+      simp only [lang_none, false_iff]
+      intro h'; cases h' with | range _ _ _ h1 h2 => exact h ⟨h1, h2⟩
+  | .seq a b, s => by
+    have iha := deriv_iff c a
+    have ihb := deriv_iff c b
+    simp only [Re.deriv]
+    have hseq : Lang (mkSeq (a.deriv c) b) s ↔ ∃ s1 t, s = s1 ++ t ∧ Lang a (c :: s1) ∧ Lang b t := by
+      rw [lang_mkSeq, lang_seq_iff]
+      constructor
+      · rintro ⟨s1, t, h, h1, h2⟩; exact ⟨s1, t, h, (iha s1).mp h1, h2⟩
+      · rintro ⟨s1, t, h, h1, h2⟩; exact ⟨s1, t, h, (iha s1).mpr h1, h2⟩
+    have hsplit : Lang (.seq a b) (c :: s) ↔
+        (∃ s1 t, s = s1 ++ t ∧ Lang a (c :: s1) ∧ Lang b t) ∨ (Lang a [] ∧ Lang b (c :: s)) := by
+      rw [lang_seq_iff]
+      constructor
+      · rintro ⟨u, t, h, h1, h2⟩
+        cases u with
+        | nil => simp only [List.nil_append] at h; subst h; exact Or.inr ⟨h1, h2⟩
+        | cons x u =>
+          simp only [List.cons_append, List.cons.injEq] at h
+          obtain ⟨rfl, rfl⟩ := h
+          exact Or.inl ⟨u, t, rfl, h1, h2⟩
+      · rintro (⟨s1, t, rfl, h1, h2⟩ | ⟨h1, h2⟩)
+        · exact ⟨c :: s1, t, rfl, h1, h2⟩
+        · exact ⟨[], c :: s, rfl, h1, h2⟩
+    split
+    · rename_i hn
+      rw [lang_mkAlt, lang_alt_iff, hseq, ihb s, hsplit]
+      have := (nullable_iff a).mp hn
+      constructor
+      · rintro (h | h)
+        · exact Or.inl h
+        · exact Or.inr ⟨this, h⟩
+      · rintro (h | ⟨_, h⟩)
+        · exact Or.inl h
+        · exact Or.inr h
+    · rename_i hn
+      rw [hseq, hsplit]
+      have : ¬ Lang a [] := fun h => hn ((nullable_iff a).mpr h)
+      constructor
+      · intro h; exact Or.inl h
+      · rintro (h | ⟨h, _⟩)
+        · exact h
+        · exact absurd h this
+  | .alt a b, s => by
+    have iha := deriv_iff c a s
+    have ihb := deriv_iff c b s
+    simp only [Re.deriv]
+    rw [lang_mkAlt, lang_alt_iff, lang_alt_iff, iha, ihb]
+  | .star a, s => by
+    have iha := deriv_iff c a
+    simp only [Re.deriv]
+    rw [lang_mkSeq, lang_seq_iff]
+    constructor
+    · rintro ⟨s1, t, rfl, h1, h2⟩
+      exact .starCons ((iha s1).mp h1) h2
+    · intro h
+      obtain ⟨s1, s2, rfl, h1, h2⟩ := star_cons_inv h
+      exact ⟨s1, s2, rfl, (iha s1).mpr h1, h2⟩
+
+/-- the derivative matcher decides FULL-string membership in the regex's language. -/
+theorem matches_iff : ∀ (s : Str) (r : Re), r.matches s = true ↔ Lang r s
+  | [], r => by simp [Re.matches, nullable_iff]
+  | c :: s, r => by
+    have ih := matches_iff s (r.deriv c)
+    simp only [Re.matches, List.foldl_cons] at ih ⊢
+    rw [ih, deriv_iff]
+
 end GrpcProofs.Lemmas.Matchers
